@@ -32,8 +32,8 @@ LEVEL_TEXT = ("Coq proofs about the executable model meek_model (textbook rules 
               "BY CORRESPONDENCE — _apply_meek_rules of the repository equals the model on the generated inputs; "
               "completeness with background knowledge (model = maximally oriented graph) only observed by the extracted oracle.")
 LEVEL_NOTE = ("the tie is differential (extracted model vs. implementation on generated inputs); iteration order of graph.nodes / "
-              "neighbors is modelled as V-order x V-order, the theorems hold for every order; n=5 completeness only through the "
-              "extracted oracle in the thorough tier; measured kernel cost of n=5: naive check about 0.4 s per DAG (3 CPU-hours), table-driven with one v-structure "
+              "neighbors is modelled as V-order x V-order, the theorems hold for every order; "
+              "measured kernel cost of n=5: naive check about 0.4 s per DAG (3 CPU-hours), table-driven with one v-structure "
               "signature per DAG 4.3 CPU-min in total; essential_graph / is_ext are boolean oracles (acyclicb proved sound for "
               "Spec.acyclic, the rest of the reflection is not proved)")
 TECHNIQUE = "Coq proof (invariants, unbounded; completeness bounded n<=5 by vm_compute) + extracted-model correspondence"
